@@ -613,6 +613,16 @@ func (e fixEvaluator) SwitchWith(evk *rlwe.EvaluationKey, pk *rlwe.PublicKey) in
 	return levelP + evk.LevelQ()
 }
 
+// FLAGNEST control: the Montgomery form is only produced for NTT outputs
+func (e fixEvaluator) Emit(ct *rlwe.Ciphertext) {
+	if ct.IsNTT {
+		e.r.NTT(ct.Value[0], ct.Value[0])
+		if ct.IsMontgomery {
+			e.r.MForm(ct.Value[0], ct.Value[0])
+		}
+	}
+}
+
 func rnsBad(r *ring.Ring, v uint64) (rns ring.RNSScalar) {
 	rns = make(ring.RNSScalar, r.Level()+1)
 	for i := range rns {
